@@ -193,7 +193,7 @@ package parquet
 //@   ensures forall q in 0..allocbound(): cast("*parquet.readCounter", q).r == old(cast("*parquet.readCounter", q).r)
 //@   ensures[C10] err == nil ==> (rfault ==> old(rfault))
 //@   ensures[C08] err == nil ==> srcPos == old(srcPos) + thriftLen(srcB, old(srcPos)) && thriftLen(srcB, old(srcPos)) >= 1
-//@   ensures[C08] err == nil && isRC(r) ==> asRC(r).n == old(asRC(r).n) || asRC(r).n == old(asRC(r).n) + thriftLen(srcB, old(srcPos))
+//@   ensures[C08] err == nil && isRC(r) ==> asRC(r).n == old(asRC(r).n) + thriftLen(srcB, old(srcPos))
 
 //@ func pageData
 //@   split isRC(r)
